@@ -2,7 +2,8 @@
 (fault enumeration).
 
 A real CircuitBreaker (simulated clock) is driven to HALF-OPEN so that the call
-under test is the admitted probe (second sub-batch: CLOSED), then ONE policy
+under test is the admitted probe (second sub-batch: CLOSED; both also after an
+earlier outage that ended with a successful probe), then ONE policy
 call is made through one of the 8 entry points {sync, async} x {call, execute}
 x {with retry, without}.  A fault-free reference run numbers attempts, sleeps,
 callback invocations and (async) suspension points; then EVERY termination kind
@@ -25,6 +26,8 @@ R1 told   : between admission and the end of call()/execute() the breaker
             received at least one record_*
 R2 settled: after the call, advance the clock by recovery_timeout_s and ask for
             admission on the real breaker: admitted
+R3 the call under test itself is admitted (every pre-state is CLOSED, or OPEN
+   with the recovery timeout elapsed and no call outstanding)
 """
 from __future__ import annotations
 
@@ -70,9 +73,12 @@ def gen(seed, tier="quick"):
     scn["cfg"]["breaker"] = {"kind": "real", "failure_threshold": F, "window_us": 60_000_000, "recovery_us": R_US,
                              "trip_on": ["TRANSIENT", "SERVER_ERROR", "UNKNOWN", "RATE_LIMIT"]}
     pre = scn.get("pre") or []
-    scn["pre_state"] = r.choice(["half_open", "half_open", "closed"])
-    if scn["pre_state"] == "half_open":
-        pre = pre + [["fail", "TRANSIENT"]] * F + [["adv", R_US]]
+    scn["pre_state"] = r.choice(["half_open", "half_open", "closed", "half_open_again", "closed_again"])
+    trip = [["fail", "TRANSIENT"]] * F + [["adv", R_US + 1_000_000]]   # strictly past the timeout (float rounding at the exact boundary)
+    if scn["pre_state"].endswith("_again"):
+        pre = pre + trip + [["allow"], ["success"]]        # an earlier outage that ended with a successful probe
+    if scn["pre_state"].startswith("half_open"):
+        pre = pre + trip
     scn["pre"] = pre
     scn["post"] = [["adv", R_US + 1_000_000], ["allow"]]  # strictly past the timeout: immune to float rounding at the boundary
     if scn["mode"] == "async":
@@ -93,6 +99,10 @@ def judge(scn, env, tag, out, cases):
         return
     admitted = any(e["ev"] == "BREAKER" and e["m"] == "allow" and e["ret"] for e in cf.events)
     if not admitted:
+        if any(e["ev"] == "BREAKER" and e["m"] == "allow" for e in cf.events):
+            # every pre-state is either closed or "recovery timeout elapsed, no call outstanding"
+            out.append(V("R3", f"call refused although no call is outstanding and the recovery timeout has elapsed: {ent} pre={scn.get('pre_state')}",
+                         {"entry": ent, "fault": tag, "pre_state": scn.get("pre_state")}))
         return
     cases.add((ent, scn.get("pre_state"), tag.split("@")[0], tag.split("@")[1].rstrip("0123456789=") if "@" in tag else ""))
     recs = [e for e in cf.events if e["ev"] == "BREAKER" and e["m"] != "allow"]
